@@ -45,6 +45,10 @@ CHECKS = {
    text="Lean theorems about the output machine: after every visible text chunk nothing blank is pending or last written, so a NEWLINE chunk emits exactly its terminators (no trailing blank); indentation written by output_to_column is tabs-then-spaces, spaces only with tabs off; file-edge policy (eat_start_end + do_blank_lines edge rule). Tie: hook-trace replay through the model on every run, eatEdge/fileEdge model vs real edge breaks; monitor of the WF hypothesis at P1; op-level and byte-level oracles",
    note="trusted: Lean kernel; models AddChar/Render/EatSE validated by correspondence; comment interiors, literals, disabled regions excluded as the property says; WF of chunk texts is monitored, not proved",
    technique="Lean 4 proof over hand-written model + hook-trace correspondence + monitors + oracles"),
+ "C20": dict(level="proof", design="6/C20",
+   text="Lean theorems over the write inventory of do_blank_lines() regenerated from the source on every run (T-blank: every statement that writes a newline count, its target, kind, options, enclosing conditions) and the guard list of too_big_for_nl_max() (T-nlmax): the inventory has the shape the model interprets and calls only accessors/predicates (C20_shape, C20_callees, C20_cap_cmp); with nl_max = N > 0 and the inventory's options <= N every newline chunk the pass visits or writes ends <= N, for every list of chunks, every initial count and every outcome of the unmodelled guards (C20_visit_bounded, C20_pass_bounded); all options of the inventory but one are covered by the configuration guard (C20_inventory_covered, C20_pass_bounded_guarded); the proviso is necessary (C20_cap_needed_witness); eat_blanks_* through a model of can_increase_nl() (C20_eat_blanks_after_open/_before_close), cleanup_dup keeps the bound, start/end of file (C20_sof_eof_exact), a NEWLINE chunk writes exactly nl_count terminators (C20_newline_chunk_breaks). Tie: hook H6 records every visited newline chunk and every SetNlCount() during do_blank_lines(); the Lean driver must explain each recorded write in order by an inventory entry and reproduce the final count; Render model reproduces the bytes of every run; eatEdge model vs real edge breaks. Monitor at P1: nl_count <= nl_max outside disabled regions and no adjacent newline chunks. Oracle: runs of line breaks in the real op trace, blank lines next to braces in the real bytes",
+   note="trusted: Lean kernel; translators T-blank/T-nlmax; models Blank/EatSE/Render validated by the trace replay; the guards of do_blank_lines() and all other newline passes are an oracle - that no later pass exceeds the cap is monitored, not proved; two known findings (adjacent newline chunks around virtual braces) and one fixed defect in known_findings.json",
+   technique="Lean 4 proof over a regenerated write inventory + hook-trace refinement check + P1 monitor + byte/op oracles"),
 }
 EXTRA = {}
 for f in sorted(os.listdir(ROOT)):
@@ -69,7 +73,7 @@ m = {"version": 1, "setup_cmd": "./setup.sh",
      "hooks": {"guard": "UNCRUSTIFY_VERIF",
                "enable": "cmake -S /repo -B /verif/.cache/bld -G Ninja -DCMAKE_CXX_FLAGS=-DUNCRUSTIFY_VERIF (done by vlib/common.py build_repo on every check; hooks are active only when env UNC_VERIF_OUT names a file)",
                "baseline_off_cmd": "cmake -S /repo -B /repo/_build -G Ninja && cmake --build /repo/_build -j16 && ctest --test-dir /repo/_build -j8 --timeout 900",
-               "source_commits": ["ca48173", "7614740"], "add_only": True},
+               "source_commits": ["ca48173", "7614740", "9599255"], "add_only": True},
      "engines": [{"name": "lean-model", "path": "lean/UncModel", "serves_properties": sorted(claimed),
                   "kind_free_text": "Lean 4 models + theorems (Props/*.lean), compiled driver uncdrv for the correspondence checks"}],
      "checks": checks,
